@@ -1,4 +1,5 @@
 SPECIFICATION Spec
 CONSTANT Which = "main"
+CONSTANT Tier = "quick"
 INVARIANT FindOKHolds
 CHECK_DEADLOCK FALSE
